@@ -15,7 +15,7 @@ for seed in "$@"; do
      else echo -e "$seed\t$prop\tNO" >> $out; git -C /repo checkout -- . ; continue; fi
   else applies=yes; fi
   git -C /repo apply /verif/seeded/$seed/patch.diff
-  base=$(tools/baseline.py /repo | head -1 | grep -o "[0-9]*/[0-9]*")
+  base=$(tools/baseline.py /repo | head -1 | grep -o "[0-9]*/[0-9]*" | head -1)
   timeout 600 /venv/bin/python seeded/$seed/demo.py /repo > /tmp/sr.$seed.demo1 2>&1; d1=$?
   git -C /repo checkout -- .
   timeout 600 /venv/bin/python seeded/$seed/demo.py /repo > /tmp/sr.$seed.demo0 2>&1; d0=$?
